@@ -704,8 +704,23 @@ func TestC11(t *testing.T) {
 // (a) deterministic single-goroutine histories
 
 func runSequential(r *lib.Run) {
-	n := r.N(2500, 150000)
-	rng := r.Rng("seq")
+	// independent shards (own PRNG stream, own proxies); each world is driven by one goroutine
+	shards := r.N(4, 12)
+	t0 := time.Now()
+	var wg sync.WaitGroup
+	for sh := 0; sh < shards; sh++ {
+		wg.Add(1)
+		go func(sh int) {
+			defer wg.Done()
+			runSequentialShard(r, sh, r.N(4000, 180000)/shards)
+		}(sh)
+	}
+	wg.Wait()
+	r.Set("seq_wall_s", time.Since(t0).Seconds())
+}
+
+func runSequentialShard(r *lib.Run, shard, n int) {
+	rng := r.Rng(fmt.Sprintf("seq/%d", shard))
 	var steps, admittedN, rejCan, rejReg, kicks, tds int
 	for ci := 0; ci < n; ci++ {
 		c := genCase(rng)
@@ -723,7 +738,7 @@ func runSequential(r *lib.Run) {
 			tokens = append(tokens, 100+k)
 		}
 		rng.Shuffle(len(tokens), func(a, b int) { tokens[a], tokens[b] = tokens[b], tokens[a] })
-		r.LogCase(map[string]any{"kind": "sequential", "case": specString(c), "schedule": tokens})
+		r.LogCase(map[string]any{"kind": "sequential", "shard": shard, "case": specString(c), "schedule": tokens})
 
 		pc := make([]int, len(c.Sessions)) // next step of each session
 		st := regState{}
@@ -883,7 +898,9 @@ func fmtFinding(f *finding) any {
 var lockFrame = regexp.MustCompile(`sync\.\(\*RWMutex\)\.R?Lock\(.*\n.*\n(?:sync\.[^\n]*\n.*\n)*go\.minekube\.com/gate/pkg/edition/java/proxy\.\(\*Proxy\)\.`)
 
 func runConcurrent(r *lib.Run) {
-	n := r.N(1200, 60000)
+	t0 := time.Now()
+	defer func() { r.Set("conc_wall_s", time.Since(t0).Seconds()) }()
+	n := r.N(2000, 40000)
 	rng := r.Rng("conc")
 	var checked, illegal, explained, unknown, tainted, rejReg, rejCan, admittedN, kicked int
 	sigs := map[string]struct{}{}
